@@ -102,11 +102,19 @@ Predict(us, c) ==
 
 (* an inline definition needs the external definition in the other unit (else whether the link
    succeeds is unspecified: gcc references the external symbol, chibicc uses its local copy) *)
-InDomain(us) == \A i \in 1..2 : us[i].h = "idef" => us[3 - i].h \in {"def", "eidef"}
+(* and: two strong definitions of one name are undefined behaviour (6.9p5); a static link
+   diagnoses it (predicted: "dup"), a link against a shared library silently lets the
+   executable's definition preempt the library's except where the library bound its own
+   reference early (gcc does for `extern inline`) - not predicted, excluded *)
+BothStrong(us, c) == \/ GSym(us[1].g, 1, c).s = "strong" /\ GSym(us[2].g, 2, c).s = "strong"
+                     \/ TSym(us[1].t, 1).s = "strong" /\ TSym(us[2].t, 2).s = "strong"
+                     \/ HSym(us[1].h, us, 1).s = "strong" /\ HSym(us[2].h, us, 2).s = "strong"
+InDomain(us, c) == /\ \A i \in 1..2 : us[i].h = "idef" => us[3 - i].h \in {"def", "eidef"}
+                   /\ c = "shared" => ~BothStrong(us, c)
 
 Init == units = <<>> /\ cfg \in Configs /\ res = "-"
 AddUnit(k) == /\ Len(units) < 2 /\ units' = Append(units, k) /\ UNCHANGED <<cfg, res>>
-Link == /\ Len(units) = 2 /\ res = "-" /\ InDomain(units)
+Link == /\ Len(units) = 2 /\ res = "-" /\ InDomain(units, cfg)
         /\ res' = Predict(units, cfg).link
         /\ UNCHANGED <<units, cfg>>
         /\ Emit => CSVWrite("%1$s", <<ToJson([cfg |-> cfg, u1 |-> units[1], u2 |-> units[2], pred |-> Predict(units, cfg)])>>, IOEnv.OUT)
@@ -120,13 +128,13 @@ Spec == Init /\ [][Next]_vars
    a strong library definition meets a tentative one of the executable (where
    the dynamic-linking rules pick differently)                              *)
 ConfigIndependent ==
-  (Len(units) = 2 /\ InDomain(units)) =>
+  (Len(units) = 2 /\ InDomain(units, "default")) =>
     LET d == Predict(units, "default") IN
     /\ Predict(units, "pic") = d /\ Predict(units, "static") = d
-    /\ (d.link = "ok" /\ ~(units[1].g \in {"T", "TT"} /\ units[2].g = "D")) => Predict(units, "shared") = d
+    /\ (d.link = "ok" /\ InDomain(units, "shared") /\ ~(units[1].g \in {"T", "TT"} /\ units[2].g = "D")) => Predict(units, "shared") = d
     /\ (d.link = "ok" /\ Predict(units, "nocommon").link = "ok") => Predict(units, "nocommon") = d
 (* -fno-common only ever turns a successful link into a multiple-definition error *)
 NoCommonMonotone ==
-  (Len(units) = 2 /\ InDomain(units) /\ Predict(units, "nocommon").link = "fail" /\ Predict(units, "default").link = "ok")
+  (Len(units) = 2 /\ InDomain(units, "nocommon") /\ Predict(units, "nocommon").link = "fail" /\ Predict(units, "default").link = "ok")
        => (units[1].g \in {"T", "TT"} /\ units[2].g \in {"T", "TT", "D"}) \/ (units[2].g \in {"T", "TT"} /\ units[1].g \in {"T", "TT", "D"})
 =============================================================================
